@@ -675,4 +675,34 @@ past the end of `res` — an out-of-bounds **write** -/
 theorem cnv_by_const_res_col_counterexample :
     ¬ InBounds (lens4 (8 * 1 * 1) (8 * 1 * 1) 1 (8 * (1 + 1))) (cnvByConst 8 1 1 1 1 1 0 1 0) := by decide
 
+/-- with the entry assertions of the proposed repair (docs/fixes/01) the column hypotheses disappear: whenever the
+checked operations return a footprint, it is in bounds -/
+theorem cnv_checked_in_bounds (m n resSize resCols resCol aSize aCols aCol bSize bCols bCol cnvOffset tmpLen tmpLen2 : Nat)
+    (hm : m % 4 = 0) (hn : n % 8 = 0)
+    (htmp : 8 * min resSize (aSize + bSize - 1) ≤ tmpLen) (htmp2 : 8 * (min resSize (aSize + bSize - 1) + aSize) ≤ tmpLen2) :
+    (∀ foot, cnvApplyChecked m resSize resCols resCol aSize aCols aCol bSize bCols bCol cnvOffset = .ok foot →
+      InBounds (lens4 (2 * m * resCols * resSize) (2 * m * aCols * aSize) (2 * m * bCols * bSize) tmpLen) foot) ∧
+    (∀ foot, cnvByConstChecked n resSize resCols resCol aSize aCols aCol bSize cnvOffset = .ok foot →
+      InBounds (lens4 (n * resCols * resSize) (n * aCols * aSize) bSize tmpLen2) foot) := by
+  constructor
+  · intro foot h
+    unfold cnvApplyChecked at h
+    split at h; · cases h
+    split at h; · cases h
+    rename_i h1 h2
+    have h1' := Decidable.of_not_not h1
+    have h2' := Decidable.of_not_not h2
+    cases h
+    exact cnv_apply_in_bounds m resSize resCols resCol aSize aCols aCol bSize bCols bCol cnvOffset tmpLen hm h2'.1 h2'.2 h1'.1 h1'.2.1 h1'.2.2 htmp
+  · intro foot h
+    unfold cnvByConstChecked at h
+    split at h; · cases h
+    split at h; · cases h
+    rename_i h1 h2
+    have h1' := Decidable.of_not_not h1
+    have h2' := Decidable.of_not_not h2
+    cases h
+    exact cnv_by_const_in_bounds n resSize resCols resCol aSize aCols aCol bSize cnvOffset tmpLen2 hn h2' h1'.1 h1'.2 htmp2
+example : okVal (cnvByConstChecked 8 1 1 1 1 1 0 1 0) = none ∧ (okVal (cnvByConstChecked 8 2 2 1 2 2 0 3 1)).isSome = true := by decide
+
 end C17
